@@ -33,8 +33,74 @@ func c13PK(c *core.Ctx) {
 	c.Decide(same, rule, "aggsender.certificate_info_history#same-columns", token.NoPos, "`INSERT INTO certificate_info_history SELECT * FROM certificate_info` relies on identical column lists")
 }
 
+// c13StatusUpdate: UpdateCertificateStatus writes the status it is given to the row of that certificate, whatever the
+// row said before (the Agglayer may re-open a certificate: InError → Pending is a transition the recovery relies on).
+func c13StatusUpdate(c *core.Ctx, rule string) {
+	fn := c.MustFn(rule, "aggsender/db", "AggSenderSQLStorage", "UpdateCertificateStatus")
+	if fn == nil {
+		return
+	}
+	sx := core.NewSymx()
+	n := 0
+	core.Instrs(fn, func(i ssa.Instruction) {
+		cc := core.AsCall(i)
+		if cc == nil || !cc.IsInvoke() || cc.Method.Name() != "Exec" || len(cc.Args) < 2 {
+			return
+		}
+		stmt := stmtText(cc.Args[0], 0)
+		tk := sqlTokensUpper(stmt)
+		if len(tk) < 4 || tk[0] != "UPDATE" {
+			return
+		}
+		n++
+		// UPDATE t SET a = $i, b = $j WHERE c = $k [AND …]
+		set, where := map[string]string{}, map[string]string{}
+		okShape := tk[1] == "CERTIFICATE_INFO" && tk[2] == "SET"
+		j := 3
+		for ; j+2 < len(tk) && tk[j] != "WHERE"; j += 3 {
+			if tk[j+1] != "=" {
+				okShape = false
+				break
+			}
+			set[tk[j]] = tk[j+2]
+			if j+3 < len(tk) && tk[j+3] == "," {
+				j++
+			}
+		}
+		if j < len(tk) && tk[j] == "WHERE" {
+			rest := strings.Join(tk[j+1:], " ")
+			for _, conj := range strings.Split(rest, " AND ") {
+				f := strings.Fields(conj)
+				if len(f) == 3 && f[1] == "=" {
+					where[f[0]] = f[2]
+				} else {
+					where["?"+conj] = "?"
+				}
+			}
+		} else {
+			okShape = false
+		}
+		args := boundArgs(fn, stmt, sx)
+		arg := func(ph string) string {
+			var k int
+			if _, err := fmt.Sscanf(ph, "$%d", &k); err != nil || k < 1 || k > len(args) {
+				return "?"
+			}
+			return args[k-1]
+		}
+		ok := okShape && len(set) == 2 && arg(set["STATUS"]) == "newStatus" && arg(set["UPDATED_AT"]) == "updatedAt" &&
+			len(where) == 1 && strings.HasSuffix(arg(where["CERTIFICATE_ID"]), "Hash).String(certificateID)")
+		c.Decide(ok, rule, "aggsender/db.(*AggSenderSQLStorage).UpdateCertificateStatus#statement", i.Pos(),
+			fmt.Sprintf("sets status←newStatus, updated_at←updatedAt for exactly the row certificate_id = certificateID, unconditionally: SET %v WHERE %v args %v", set, where, args))
+	})
+	if n == 0 {
+		c.Violate(rule, "aggsender/db.(*AggSenderSQLStorage).UpdateCertificateStatus#statement", fn.Pos(), "no UPDATE statement found")
+	}
+}
+
 func c13Replace(c *core.Ctx) {
 	const rule = "C13-replace"
+	c13StatusUpdate(c, rule)
 	names := []string{"SaveLastSentCertificate", "UpdateCertificateStatus", "DeleteCertificate", "SaveNonAcceptedCertificate", "GetLastSentCertificateHeaderWithProofIfInError"}
 	for _, n := range names {
 		fn := c.MustFn(rule, "aggsender/db", "AggSenderSQLStorage", n)
@@ -316,8 +382,74 @@ func c13Recover(c *core.Ctx) {
 			}
 		}
 		c.Decide(ok, rule, "statuschecker.updateLocalStorageWithAggLayerCert#saves", up.Pos(), "the rebuilt record is saved through SaveLastSentCertificate")
+		// nothing is skipped: "no record, no error" is answered only when the Agglayer has no certificate at all (the
+		// rebuilt record is nil), never by status — an InError certificate on top of settled history still fixes the height
+		var rebuilt *ssa.Call
+		core.Instrs(up, func(i ssa.Instruction) {
+			if core.IsCallTo(i, "aggsender/statuschecker.newCertificateInfoFromAgglayerCertHeader") {
+				rebuilt, _ = i.(*ssa.Call)
+			}
+		})
+		okSkip := rebuilt != nil
+		if rebuilt != nil {
+			none := core.NilEdgesRes(up, core.ExtractOf(rebuilt, 0), true)
+			for _, rc := range core.ReturnCases(up) {
+				if len(rc.Values) == 2 && isNilConst(rc.Values[0]) && isNilConst(rc.Values[1]) {
+					okSkip = okSkip && len(none) > 0 && rc.ReachableOnlyVia(up, none)
+				}
+			}
+		}
+		c.Decide(okSkip, rule, "statuschecker.updateLocalStorageWithAggLayerCert#nothing-skipped", up.Pos(), "(nil, nil) only when there is no Agglayer certificate to rebuild from")
 	}
 	// metadata codec: writer/reader agreement (C03-meta) is decided under C03; here: BuildCertificate's offset argument
+}
+
+// c13Inputs: the start-up decision is taken on complete information. newInitialStatus hands out a status only when all
+// three lookups (latest settled, latest pending on the Agglayer; last sent locally) succeeded, and the status carries
+// exactly their results: an error treated as "nothing there" would let recovery conclude that nothing is in flight.
+func c13Inputs(c *core.Ctx) {
+	const rule = "C13-inputs"
+	fn := c.MustFn(rule, "aggsender/statuschecker", "", "newInitialStatus")
+	if fn == nil {
+		return
+	}
+	sx := core.NewSymx()
+	want := map[string]string{
+		"SettledCert": ").GetLatestSettledCertificateHeader",
+		"PendingCert": ").GetLatestPendingCertificateHeader",
+		"LocalCert":   ").GetLastSentCertificateHeader",
+	}
+	calls := map[string]*ssa.Call{}
+	core.Instrs(fn, func(i ssa.Instruction) {
+		if cl, ok := i.(*ssa.Call); ok {
+			for f, suffix := range want {
+				if strings.HasSuffix(core.CallName(cl), suffix) {
+					calls[f] = cl
+				}
+			}
+		}
+	})
+	for _, f := range []string{"SettledCert", "PendingCert", "LocalCert"} {
+		cl := calls[f]
+		construct := "statuschecker.newInitialStatus#" + f
+		if cl == nil {
+			c.Violate(rule, construct, fn.Pos(), "the lookup behind "+f+" is gone")
+			continue
+		}
+		okEdges := core.NilEdgesRes(fn, core.ErrValueOf(cl), true)
+		ok := len(okEdges) > 0
+		n := 0
+		for _, rc := range core.ReturnCases(fn) {
+			if len(rc.Values) != 2 || !isNilConst(rc.Values[1]) {
+				continue
+			}
+			n++
+			t := sx.Of(rc.Values[0])
+			fld := t.Fields[f]
+			ok = ok && rc.ReachableOnlyVia(fn, okEdges) && t.Op == "lit" && fld != nil && fld.Val == core.ExtractOf(cl, 0)
+		}
+		c.Decide(ok && n > 0, rule, construct, cl.Pos(), "a status is returned only when this lookup succeeded, and "+f+" is its result")
+	}
 }
 
 func c13Decide(c *core.Ctx) {
@@ -573,10 +705,12 @@ func init() {
 		Rules: []Rule{
 			{ID: "C13-last", Floor: 6, Run: c13Last, Text: "SQL: 'the last sent certificate' is the row with the greatest height"},
 			{ID: "C13-read", Floor: 2, Run: c13ReadFaults, Text: "[DOM] read faults are not 'no certificate'; a status difference is always applied and stored"},
+			{ID: "C13-next", Floor: 6, Run: shared("C13-next", c02Next), Text: "(shared with C02-next) the next certificate after a recovered InError one refuses when the settled predecessor is unknown"},
 			{ID: "C13-pk", Floor: 3, Run: c13PK, Text: "[SCHEMA] primary keys of certificate_info / history; same columns"},
 			{ID: "C13-replace", Floor: 20, Run: c13Replace, Text: "[TX] pairing, write-through, error discipline; replace-at-height inside one transaction"},
 			{ID: "C13-first", Floor: 4, Run: c13First, Text: "[DOM] reconcile before the first send; contradictions abort"},
 			{ID: "C13-recover", Floor: 8, Run: c13Recover, Text: "[FIELDMAP] record rebuilt from the Agglayer header"},
+			{ID: "C13-inputs", Floor: 3, Run: c13Inputs, Text: "[DOM]+[PROV] recovery decides on the results of all three lookups; an error is never read as absent"},
 			{ID: "C13-decide", Floor: 10, Run: c13Decide, Text: "guarded-return matching of the reconciliation cases; contradictions refuse; dispatch"},
 		},
 	})
